@@ -18,16 +18,19 @@ def EntryWF (e : BEntry) : Prop :=
 /-- the checksum function returns 64-bit values (xxhash.Sum64 does). -/
 def HashOK (hash : Bytes → Nat) : Prop := ∀ bs, hash bs < 2 ^ 64
 
-/-- the last conjunct is `validateBloomFilterSize`: a serialised filter (32-byte header + bit array) must not exceed
-    64 MiB, otherwise OpenReader rejects the bloom section the writer produced (see `bloom_filter_size_limit_needed`). -/
+/-- the size conjunct is `validateBloomFilterSize`: a serialised filter (32-byte header + bit array) must not exceed
+    64 MiB, otherwise OpenReader rejects the bloom section the writer produced (see `bloom_filter_size_limit_needed`).
+    The last two conjuncts are what `LoadBloomFilter` requires of a filter header in order to keep the filter
+    (at least one hash function, not more hash functions than bits); a filter failing them is skipped when the
+    table is opened, and `Reader.Get` then treats every block as "definitely absent". -/
 def Params.WF (p : Params) : Prop :=
   0 < p.ri ∧ p.footerSize = 68 ∧ 2 ≤ p.version ∧ p.version < 2 ^ 32 ∧ p.magic < 2 ^ 64 ∧ 0 < p.bloomBits ∧
   p.bloomBits < 2 ^ 32 ∧ p.bloomK < 2 ^ 32 ∧ p.bloomN < 2 ^ 64 ∧ 0 < p.blockCut ∧
-  32 + (p.bloomBits + 7) / 8 ≤ 64 * 1024 * 1024
+  32 + (p.bloomBits + 7) / 8 ≤ 64 * 1024 * 1024 ∧ 0 < p.bloomK ∧ p.bloomK ≤ p.bloomBits
 
 theorem Params.WF.split {p : Params} (hp : Params.WF p) : PWF p ∧ ∀ bloom, BloomFits p bloom := by
-  obtain ⟨h1, h2, h3, h4, h5, h6, h7, h8, h9, h10, h11⟩ := hp
-  exact ⟨⟨h1, h2, h3, h4, h5, h6, h7, h8, h9, h10⟩, fun _ _ => h11⟩
+  obtain ⟨h1, h2, h3, h4, h5, h6, h7, h8, h9, h10, h11, h12, h13⟩ := hp
+  exact ⟨⟨h1, h2, h3, h4, h5, h6, h7, h8, h9, h10⟩, fun _ _ => ⟨h11, h12, h13⟩⟩
 
 /-- forward iteration from a positioned block iterator: the entries visited by `Valid/Next` loops. -/
 def collectB : Nat → Block.Iter → List BEntry
